@@ -499,16 +499,22 @@ class CallMixin:
         return [("val", r[1], obj) if r[0] == "val" else r for r in res]
 
     # ------------------------------------------------------------------
-    def call_user(self, fn, args, kwargs, st, node, label=None):
-        """Opaque user callable: may return anything, may raise an
-        exception of *any* class below BaseException; does not touch loky
-        state (assumption A-user)."""
+    def user_arg_term(self, args, kwargs):
+        """Encoding of an argument list of an opaque call as one object id."""
         packed = [a.v if isinstance(a, Star) else a for a in args]
         argid = to_obj_term(VTuple(packed)) if not any(isinstance(a, Star) for a in args) \
             else to_obj_term(VTuple([VConst("*")] + packed))
         for k in sorted(kwargs):
             argid = z3.Function("box_kw", ty.IntS, ty.IntS, ty.IntS, ty.IntS)(
                 argid, z3.IntVal(const_id(f"kw:{k}")), to_obj_term(kwargs[k]))
+        return argid
+
+    def call_user(self, fn, args, kwargs, st, node, label=None):
+        """Opaque user callable: may return anything, may raise an
+        exception of *any* class below BaseException; does not touch loky
+        state (assumption A-user)."""
+        packed = [a.v if isinstance(a, Star) else a for a in args]
+        argid = self.user_arg_term(args, kwargs)
         fid = to_obj_term(fn)
         for hook in self.user_call_hooks:
             hook(self, fn, args, kwargs, st, node)
@@ -637,6 +643,15 @@ class CallMixin:
             results = [(st, st.new_obj(RT.cls, RT if isinstance(RT, (ty.Map, ty.Lst)) else None))]
             if isinstance(RT, ty.Map):
                 st.map_clear(results[0][1])
+            elif isinstance(RT, ty.Ref) and RT.cls in self.schema.classes:
+                subs = [n for n in self.schema.classes if RT.cls in self.schema.mro(n)]
+                if len(subs) > 1:
+                    # a new object of the declared class or of one of its subclasses
+                    r0 = results[0][1]
+                    cid = fresh_const("newcls", ty.IntS)
+                    key_ = ("<obj>", "cls")
+                    st.heap[key_] = (z3.Store(st.heap[key_][0], r0.t, cid),)
+                    st.assume(z3.Or([cid == const_id(f"class:{n}") for n in subs]))
         elif c.pure and not isinstance(c.returns_, ty._NoneT):
             results = self.pure_result(c, env, st)
         else:
@@ -660,6 +675,11 @@ class CallMixin:
                 s.assume(self.spec_eval(expr, s, env2, old=old, mode="hyp", module=cmod))
             if not c.ensures_ or self.feasible(s):
                 outs.append(("val", s, res))
+            elif not exc_specs:
+                # a contract whose postcondition cannot be met at this call site would silently remove the path
+                self.results.append(__import__("pyvc.engine", fromlist=["VCResult"]).VCResult(
+                    f"{caller}@call:{short}/guard/postcondition-satisfiable", self.prop_of(None), self.cur_key, "vacuous",
+                    "guard", 0.0, list(s.notes), None, kind="guard", site=site))
         return outs
 
     def pure_result(self, c, env, st):
